@@ -23,7 +23,9 @@ namespace glm
 			T p = hsv.z * (T(1) - hsv.y * frac);
 			T q = hsv.z * (T(1) - hsv.y * (T(1) - frac));
 
-			switch(int(sector))
+			// Convert the sector only when it names one of the six sectors: the conversion to int is undefined for a
+			// sector outside the range of int (huge hue, NaN); every other sector takes the default branch anyway
+			switch((sector >= T(0) && sector < T(6)) ? int(sector) : 0)
 			{
 			default:
 			case 0:
